@@ -39,6 +39,8 @@ type PCase struct {
 	Keys []string   `json:"keys,omitempty"`
 	Mk   []string   `json:"mk,omitempty"`
 	Mv   [][]string `json:"mv,omitempty"`
+	// kind "mixed": more than one parallelism type is set at once
+	Types []string `json:"types,omitempty"`
 }
 
 type PIdx struct {
@@ -78,6 +80,17 @@ func (c PCase) spec() *execution.ParallelismSpec {
 		s.WithMatrix = map[string][]string{}
 		for i, k := range c.Mk {
 			s.WithMatrix[k] = append([]string{}, c.Mv[i]...)
+		}
+	case "mixed":
+		for _, t := range c.Types {
+			switch t {
+			case "count":
+				s.WithCount = pointer.Int64(2)
+			case "keys":
+				s.WithKeys = []string{"a", "b"}
+			case "matrix":
+				s.WithMatrix = map[string][]string{"goos": {"linux", "darwin"}}
+			}
 		}
 	}
 	return s
